@@ -239,6 +239,18 @@ Definition is_some {A} (o : option A) : bool := match o with Some _ => true | No
 
 Inductive mask_kind : Set := MPos (m : list bool) | MLabel.
 
+(* operations on ONE input object (BaseInput): in-place edits of the table it holds -- set_cell,
+   convert_to_short/long, writes through .dataframe -- seen here as "row k now has this content", and validate *)
+Inductive op : Set := OSet (k : nat) (r : row) | OValidate.
+
+(* self._dataframe.iloc[k, c] = text *)
+Fixpoint set_row (k : nat) (r : row) (t : list row) : res (list row) :=
+  match t, k with
+  | [], _ => Exn IndexError
+  | _ :: t', 0 => Ok (r :: t')
+  | x :: t', S k' => let* t'' := set_row k' r t' in Ok (x :: t'')
+  end.
+
 (* ------------------------------------------------------------------ issues *)
 
 Section Validate.
@@ -397,6 +409,21 @@ Section Validate.
 
   Definition validate (cfg : config) (t : list row) : res (list issue) :=
     let* l := validate_unsorted cfg t in Ok (sort_issues l).
+
+  (* a history of operations on one input object.  The only state of the object that validation reads is the
+     table it currently holds (BaseInput._dataframe with its mapper): validate works on the assembled copy
+     and on a sorted deep copy, stores nothing on the object, and an edit that raises leaves the table as it was. *)
+  Inductive hres : Type := HSet (e : option exn) | HReport (r : res (list issue)).
+  Fixpoint run_history (cfg : config) (t : list row) (ops : list op) : list hres :=
+    match ops with
+    | [] => []
+    | OSet k r :: ops' =>
+        match set_row k r t with
+        | Ok t' => HSet None :: run_history cfg t' ops'
+        | Exn e => HSet (Some e) :: run_history cfg t ops'
+        end
+    | OValidate :: ops' => HReport (validate cfg t) :: run_history cfg t ops'
+    end.
 End Validate.
 
 Arguments SBasic {raw} x.
@@ -411,3 +438,5 @@ Arguments i_src {raw} i.
 Arguments i_row {raw} i.
 Arguments i_col {raw} i.
 Arguments mk {raw} s r c.
+Arguments HSet {raw} e.
+Arguments HReport {raw} r.
